@@ -111,6 +111,15 @@ def make_doc(d, eol, iea, ge, se, hl):
     return text, [s.replace('*', et) for s in segs]
 
 
+def extra_indices():
+    """indices of the segments added by SHAPE (their counts are right by construction and must not be touched)"""
+    if SHAPE == 1:
+        return (8, 9, 10)
+    if SHAPE == 2:
+        return (7, 8)
+    return ()
+
+
 def read_back(text):
     """(segment texts, envelope/count error codes) of a text through the real reader"""
     r = X12Reader(io.StringIO(text))
@@ -154,9 +163,9 @@ def h_norm(d: int, e: int, opt_eol: bool, fix: bool, dest: int, iea: int, ge: in
     iea_true = '2' if SHAPE == 2 else '1'
     wrong = {'IEA': _wrong(iea, iea_true), 'GE': _wrong(ge, '1'), 'SE': _wrong(se, '4'), 'HL': _wrong(hl, '1')}
     exp = []
-    for s in segs:
+    for k, s in enumerate(segs):
         sid = s.split(et)[0]
-        first_env = not (s.startswith('IEA' + et + '0') or s.startswith('GE' + et + '0'))
+        first_env = k not in extra_indices()
         if fix and wrong.get(sid) and first_env:
             f = s.split(et)
             f[1] = {'IEA': iea_true, 'GE': '1', 'SE': '4', 'HL': '1'}[sid]
